@@ -111,10 +111,15 @@ def run(tier, seed, t0):
             # import: the exported graph, its relabelling, and ill-formed boundary declarations
             variants = [(rec["g"], "")]
             variants.append((relabel(rec["g"]), ""))
-            if rec["g"]["ins"] and len(rows) % 5 == 0:
+            if rec["g"]["ins"] and len(rows) % 3 == 0:
                 variants.append((dict(rec["g"], ins=rec["g"]["ins"][1:]), "missing"))
-            if rec["g"]["ins"] and rec["g"]["outs"] and len(rows) % 7 == 0:
+            if rec["g"]["ins"] and rec["g"]["outs"]:
+                # a boundary vertex declared on both sides: the first input (vertex 0 in an exported graph) and the last
                 variants.append((dict(rec["g"], outs=rec["g"]["outs"][:-1] + [rec["g"]["ins"][0]]), "shared"))
+                # ... and with every boundary vertex still declared (only the sharing is wrong)
+                variants.append((dict(rec["g"], outs=rec["g"]["outs"] + [rec["g"]["ins"][0]]), "shared"))
+                if len(rec["g"]["ins"]) > 1 and len(rows) % 2 == 0:
+                    variants.append((dict(rec["g"], outs=rec["g"]["outs"] + [rec["g"]["ins"][-1]]), "shared"))
             for g, bad in variants:
                 r2 = {"kind": "from", "zx": EMPTY_ZX, "g": dict(g, sc={"re": 1, "im": 0, "s": 0}), "exc": "", "bad": bad}
                 try:
